@@ -110,6 +110,9 @@ type Peer struct {
 	Resumed           bool     // client: the server echoed our session id, i.e. accepted the ticket
 	sentSID           []byte
 	HelloExt          []byte            // client: raw extensions appended to the ClientHello extension block
+	ECDHPriv          []byte            // ECDHE profile: own ephemeral scalar
+	ECDHPeer          []byte            // ECDHE profile: the peer's ephemeral point (uncompressed)
+	ECDHOwn           []byte            // ECDHE profile: own ephemeral point (uncompressed)
 	ServerExts        map[uint16][]byte // client: extensions found in the ServerHello
 	keySuite          uint16
 	Lenient           bool     // do not stop at a wrong peer Finished
@@ -855,6 +858,9 @@ func ItemCertificate() Item {
 
 func ItemServerKX() Item {
 	return Item{Name: "ServerKeyExchange", Rec: RecHS, Build: func(p *Peer) []byte {
+		if p.Prof.BuildSKE != nil {
+			return HS(HSServerKX, p.Prof.BuildSKE(p))
+		}
 		enc := p.ID.Certs[len(p.ID.Certs)-1]
 		if len(p.ID.Certs) >= 2 {
 			enc = p.ID.Certs[1]
